@@ -1343,7 +1343,12 @@ fn check_rex(ctx: &Context, fmt: &'static Opdata, args: &[SizedArg], rex_w: bool
     // performs checks for not encodable arg combinations
     // output arg indicates if a rex prefix can be encoded
     if ctx.mode == X86Mode::Protected {
-        if rex_w {
+        // REX.W does not exist in protected mode. VEX.W / XOP.W does, but it only means something there when
+        // it is part of the opcode: the forms without a general purpose register (or memory in its place) operand.
+        let w_is_opcode = fmt.flags.intersects(Flags::VEX_OP | Flags::XOP_OP) && fmt.flags.contains(Flags::WITH_REXW) &&
+            !FormatStringIterator::new(fmt.args).any(|(c, _)| matches!(c, b'r' | b'v' | b'A' ..= b'P'));
+
+        if rex_w && !w_is_opcode {
             return Err(Some("Does not support 64 bit operand size in 32-bit mode".to_string()));
         } else {
             return Ok(false);
